@@ -129,6 +129,35 @@ func init() {
 		"(*sync.Mutex).Lock":     func(ip *Interp, fn *ssa.Function, a []Value) Value { return nil },
 		"(*sync.Mutex).Unlock":   func(ip *Interp, fn *ssa.Function, a []Value) Value { return nil },
 
+		"internal/bytealg.IndexByte":       inIndexByte,
+		"internal/bytealg.IndexByteString": inIndexByte,
+		"internal/bytealg.Count":           inCountByte,
+		"internal/bytealg.CountString":     inCountByte,
+		"internal/bytealg.Equal": func(ip *Interp, fn *ssa.Function, a []Value) Value {
+			return ip.strEq(ip.anyToStr(a[0]), ip.anyToStr(a[1]))
+		},
+		"internal/bytealg.Compare": func(ip *Interp, fn *ssa.Function, a []Value) Value {
+			x, y := ip.anyToStr(a[0]), ip.anyToStr(a[1])
+			T := ip.p.T
+			if ip.p.Branch(ip.strEq(x, y)) {
+				return T.Const(64, 0)
+			}
+			if ip.p.Branch(ip.strLess(x, y)) {
+				return T.Const(64, ^uint64(0))
+			}
+			return T.Const(64, 1)
+		},
+		"internal/bytealg.Index":       inIndexSub,
+		"internal/bytealg.IndexString": inIndexSub,
+		"internal/bytealg.MakeNoZero": func(ip *Interp, fn *ssa.Function, a []Value) Value {
+			n := int(ip.concInt(a[0]))
+			d := make([]Value, n)
+			for i := range d {
+				d[i] = ip.p.T.Const(8, 0)
+			}
+			return SliceV{Data: d}
+		},
+		"internal/stringslite.Index": inIndexSub,
 		"runtime.NumCPU": func(ip *Interp, fn *ssa.Function, a []Value) Value {
 			if ip.numCPU > 0 {
 				return ip.p.T.Const(64, uint64(ip.numCPU))
@@ -904,4 +933,55 @@ func inCSVRead(ip *Interp, fn *ssa.Function, a []Value) Value {
 		}
 		return TupleV{strSlice(fields), IfaceV{}}
 	}
+}
+
+func (ip *Interp) anyToStr(v Value) *StrV {
+	switch x := v.(type) {
+	case *StrV:
+		return x
+	case SliceV:
+		ts := make([]*Term, len(x.Data))
+		for i, e := range x.Data {
+			ts[i] = e.(*Term)
+		}
+		return strFromTerms(ts)
+	}
+	panic(engineError{fmt.Sprintf("anyToStr on %T", v)})
+}
+
+func inIndexByte(ip *Interp, fn *ssa.Function, a []Value) Value {
+	T := ip.p.T
+	bs := ip.strBytes(ip.anyToStr(a[0]))
+	c := a[1].(*Term)
+	for i, b := range bs {
+		if ip.p.Branch(T.Cmp(OpEq, b, c)) {
+			return T.Const(64, uint64(i))
+		}
+	}
+	return T.Const(64, ^uint64(0))
+}
+
+func inCountByte(ip *Interp, fn *ssa.Function, a []Value) Value {
+	T := ip.p.T
+	bs := ip.strBytes(ip.anyToStr(a[0]))
+	c := a[1].(*Term)
+	n := 0
+	for _, b := range bs {
+		if ip.p.Branch(T.Cmp(OpEq, b, c)) {
+			n++
+		}
+	}
+	return T.Const(64, uint64(n))
+}
+
+func inIndexSub(ip *Interp, fn *ssa.Function, a []Value) Value {
+	T := ip.p.T
+	sb := ip.strBytes(ip.anyToStr(a[0]))
+	pb := ip.strBytes(ip.anyToStr(a[1]))
+	for i := 0; i+len(pb) <= len(sb); i++ {
+		if ip.p.Branch(ip.matchAt(sb, i, pb)) {
+			return T.Const(64, uint64(i))
+		}
+	}
+	return T.Const(64, ^uint64(0))
 }
